@@ -630,8 +630,8 @@ class HtmlWriter:
             anchor = self.expand(anchor, cwd)
             title = self.expand(title, cwd)
             list_items = []
+            indents = [(0, list_items)]
             for item in items:
-                indents = [(0, list_items)]
                 for line in item:
                     subitems = indents[-1][1]
                     s_line = line.lstrip()
